@@ -382,7 +382,10 @@ def _describe_tuple(t: s_types.Tuple, *, ctx: Context) -> uuid.UUID:
 
     if ctx.protocol_version >= (2, 0):
         # .name
-        buf.append(_name_packer(t.get_name(ctx.schema)))
+        # (of the material type: the names of views among the subtypes
+        # are not stable, while the descriptor id does not depend on them)
+        ctx.schema, mt = t.material_type(ctx.schema)
+        buf.append(_name_packer(mt.get_name(ctx.schema)))
         # .schema_defined
         buf.append(_bool_packer(t.get_is_persistent(ctx.schema)))
         # .ancestors
@@ -427,8 +430,9 @@ def _describe_array(t: s_types.Array, *, ctx: Context) -> uuid.UUID:
     buf.append(type_id.bytes)
 
     if ctx.protocol_version >= (2, 0):
-        # .name
-        buf.append(_name_packer(t.get_name(ctx.schema)))
+        # .name (of the material type, see _describe_tuple)
+        ctx.schema, mt = t.material_type(ctx.schema)
+        buf.append(_name_packer(mt.get_name(ctx.schema)))
         # .schema_defined
         buf.append(_bool_packer(t.get_is_persistent(ctx.schema)))
         # .ancestors
